@@ -64,7 +64,7 @@ def splitTrailing (ks : List PTree) : List PTree × List PTree :=
 def sumDyn (ks : List PTree) : Int := (ks.map PTree.dynPrec).foldl (· + ·) 0
 
 inductive Fault where
-  | popBelowBase | noGoto | badState | shiftEof | noRoot
+  | popBelowBase | noGoto | badState | shiftEof | noRoot | acceptNotEof
   deriving Repr, DecidableEq, Inhabited
 
 /-- `ts_parser__reduce` on a single version.  `eoe` = `end_of_non_terminal_extra` (null look-ahead). -/
@@ -137,9 +137,12 @@ def step (tbl : Table) (c : Conf) : Conf ⊕ Outcome :=
       | .ok st => .inl { c with stack := st }
       | .error f => .inr (.fault f)
     | [.accept] =>
-      match acceptTree c.stack with
-      | some t => .inr (.accepted t)
-      | none => .inr (.fault .noRoot)
+      match c.toks with
+      | [] =>
+        match acceptTree c.stack with
+        | some t => .inr (.accepted t)
+        | none => .inr (.fault .noRoot)
+      | _ :: _ => .inr (.fault .acceptNotEof)   -- `ts_assert(ts_subtree_is_eof(lookahead))`
     | [.recover] => .inr (.rejected c.toks.length)
     | _ => .inr .glr
 
@@ -177,6 +180,10 @@ def hasEdge (tbl : Table) (p q : Nat) : Bool :=
   ((tbl.acts.getD p []).any fun e => (shiftTargets e.2).contains q) ||
   ((tbl.gotos.getD p []).any fun e => e.2 == q && (p != q || plainReduced tbl e.1))
 
+/-- some state shifts a (non-extra) token into `s` -/
+def isShiftTarget (tbl : Table) (s : Nat) : Bool :=
+  (List.range tbl.stateCount).any fun p => (tbl.acts.getD p []).any fun e => (shiftTargets e.2).contains s
+
 def predsOf (tbl : Table) (q : Nat) : List Nat :=
   if q < tbl.stateCount then (List.range tbl.stateCount).filter fun p => p != 0 && hasEdge tbl p q else []
 
@@ -192,7 +199,8 @@ def reduceOK (tbl : Table) (pr : Nat → List Nat) (s A n : Nat) : Bool :=
 def actionOK (tbl : Table) (pr : Nat → List Nat) (s a : Nat) : Action → Bool
   | .shift s' extra _ => a != 0 && (extra || (s' != 0 && s' < tbl.stateCount))
   | .reduce A n _ _ => reduceOK tbl pr s A n
-  | _ => true
+  | .accept => a == 0 && s != 1 && !isShiftTarget tbl s
+  | .recover => true
 
 def closedWith (tbl : Table) (pr : Nat → List Nat) : Bool :=
   decide (1 < tbl.stateCount) &&
